@@ -13,6 +13,7 @@ import os, sys, collections, subprocess, concurrent.futures as cf, time
 import vf
 
 ROUTINES = ["reduce", "partial", "rope", "collapse", "bspline", "perturb", "bettergoal", "simplifymax", "simplify", "interpolate", "interpolate0", "subdivide", "hybridize"]
+COST_AWARE = {"partial", "rope", "perturb", "bettergoal"}    # routines that compare costs under the simplifier's objective
 NEVER_LONGER = {"reduce", "partial", "rope", "collapse", "simplifymax", "simplify", "perturb", "bettergoal"}   # shortcutting / cost-aware routines (metric space, path-length objective)
 COVERED = {"reduce", "collapse"}    # results consist of input vertices joined by validated motions only (class A of the ledger)
 LEN_EPS = 2000        # 2e-6 in 1e-9 units: summation rounding over hundreds of segments
@@ -22,10 +23,11 @@ def gen(rng, quick):
     jobs = []
     n = 6 if quick else 120
     for r in ROUTINES:
-        for k in range(n * (8 if r == "interpolate" else 1)):
+        for k in range(n * (8 if r == "interpolate" else 5 if r in COST_AWARE else 1)):
             sp = rng.choice(["R2", "SE2", "R3"]) if k else "R2"
             env = rng.choice(["gap", "boxes3", "thin", "circles5", "empty", "boxes8"])
-            mode = ["plain", "dense", "dup"][k % 3]
+            mode = ["plain", "dense", "dup"][k % 3] + (":int" if (r in COST_AWARE and k % 2 == 1) else "")
+            if r in COST_AWARE and k % 2 == 1: mode = "ushape:int"; env = "empty"     # adversarial input for the cost comparison
             seed = rng.randint(1, 10 ** 6)
             if r == "reduce": par = "%d %d %g" % (rng.choice([0, 5, 100]), rng.choice([0, 3]), rng.choice([0.33, 0.1, 1.0]))
             elif r == "partial": par = "%d %d %g %g" % (rng.choice([0, 5, 100]), rng.choice([0, 3]), rng.choice([0.33, 0.1, 1.0]), rng.choice([0.005, 0.0, 0.2]))
@@ -38,6 +40,8 @@ def gen(rng, quick):
             elif r == "interpolate": par = "%d" % rng.choice([0, 2, 17, 40, 100, 1000, -1, -1, -2, -2, -3, -5, -8])
             elif r == "hybridize": par = "%d" % rng.choice([2, 3, 5])
             else: par = ""
+            if mode.startswith("ushape"):    # default parameters on the adversarial input
+                sp = "R2"; par = {"partial": "0 0 0.33 0.005", "rope": "0.1 0.1", "perturb": "0.05 0 0 0.005", "bettergoal": "0.1 10 0.33 0.005"}[r]
             jobs.append(("SIMP %s %s %d 0.01 %s %s %s" % (sp, env, seed, mode, r, par)).strip())
     return jobs
 
@@ -60,6 +64,7 @@ def main():
     except vf.BuildError as ex:
         c.broken.append("correspondence C17: implementation driver / model does not build: " + str(ex)[-400:]); c.finish()
     jobs = [l.strip() for l in open(c.replay) if l.startswith("SIMP ")] if c.replay else gen(c.rng, quick)
+    open(os.path.join(c.outdir, "jobs.txt"), "w").write("\n".join(jobs) + "\n")
     t0 = time.time()
     with cf.ThreadPoolExecutor(14) as ex:
         results = list(ex.map(lambda j: run_job(drv, j), jobs))
@@ -99,7 +104,9 @@ def main():
         if routine == "hybridize" and P and not P[-1]["goal"]: pred(j, "hybridized path does not end in the goal region")
         if any(not p["inb"] for p in P): pred(j, "result leaves the space bounds")
         if any(mi >= 16 for _, mi in SEG): pred(j, "result stays inside invalid space for more than two resolution lengths")
-        if routine in NEVER_LONGER and len_out > len_in + LEN_EPS: pred(j, "%s returned a longer path: %.9f > %.9f" % (routine, len_out / 1e9, len_in / 1e9))
+        integral = mode.endswith(":int")
+        if routine in NEVER_LONGER and not integral and len_out > len_in + LEN_EPS: pred(j, "%s returned a longer path: %.9f > %.9f" % (routine, len_out / 1e9, len_in / 1e9))
+        if routine in COST_AWARE and integral and cost_out > cost_in + max(LEN_EPS, cost_in // 10 ** 9): pred(j, "%s returned a path that is worse under its own objective (integral of 1 + 200 y): %.9f > %.9f" % (routine, cost_out / 1e9, cost_in / 1e9))
         if routine in ("simplify", "simplifymax") and ret and not chk_out: pred(j, "%s reports success but the path fails PathGeometric::check()" % routine)
         # vertex-only routines join input vertices by validated motions, so the result must pass check(); routines that place new states
         # ON validated motions (partial / rope shortcut, perturb, better goal) are held to the two-resolution-lengths clause above
